@@ -39,9 +39,18 @@ func genC06(t *rapid.T) (ordCase, bool, []string) {
 	r := newRenderer(t)
 	k := rapid.IntRange(2, 4).Draw(t, "k")
 	var vals []*model.V
+	relFamily := chance(t, "relfamily", 12)
+	if relFamily {
+		// relations with the same heading built through joins: their physical
+		// column layouts differ
+		r.prefer = "join-split"
+	}
 	for i := 0; i < k; i++ {
 		var v *model.V
 		switch {
+		case relFamily && i == 0:
+			h := genHeading(t, plainNames, 2, 3)
+			v = genRows(t, h, rapid.IntRange(1, 4).Draw(t, "nrows"), 0, 2)
 		case i > 0 && chance(t, "same", 15):
 			v = vals[rapid.IntRange(0, i-1).Draw(t, "dup")]
 		case i > 0 && chance(t, "near", 35):
@@ -58,7 +67,11 @@ func genC06(t *rapid.T) (ordCase, bool, []string) {
 	exprs := make([]string, k)
 	kinds := map[string]bool{}
 	for i, v := range vals {
-		exprs[i] = r.deep(g, v, pick(t, "pct", 0, 0, 40))
+		pct := pick(t, "pct", 0, 0, 40)
+		if relFamily {
+			pct = pick(t, "pctrel", 0, 90, 90)
+		}
+		exprs[i] = r.deep(g, v, pct)
 		keys[i] = v.Key()
 		kinds[reprKind(v)] = true
 	}
